@@ -491,7 +491,10 @@ def store4(ctx) -> List[Ob]:
         for stmt, kind in rt.mutations():
             if not rt.relevant(stmt):
                 continue
-            mkey = key + " :: " + A.alpha_key(stmt)
+            from .ctrl import _guard_conditions
+
+            gtxt = " & ".join(("" if pol else "not ") + A.alpha_key(ast.parse(t, mode="eval").body) for t, pol in reversed(_guard_conditions(fn.node, stmt)[:3]))
+            mkey = key + " :: " + A.alpha_key(stmt) + (" under " + gtxt if kind != "store" and gtxt else "")
             mwhere = ctx.where(fn, stmt)
             if kind == "store":
                 out.append(ok("STORE-4", fn.qualname, mkey, mwhere, "in-place subscript store keeps arity and positions"))
@@ -1134,4 +1137,119 @@ def store9(ctx) -> List[Ob]:
                     out.append(ok("STORE-9", fn.qualname, key, ctx.where(fn, c), "_jump_targets=tuple(successors)"))
                 else:
                     out.append(bad("STORE-9", fn.qualname, key, ctx.where(fn, c), f"the inserted block's successors are {A.unparse(jt) if jt is not None else 'missing'}, not exactly the given successors in order"))
+    return out
+
+
+# ------------------------------------------------------------------ STORE-11/12/13
+
+
+@rule("STORE-11", 3, "the block API stores the successor / back-edge tuple it is given as it is (no filtering, de-duplication or re-ordering inside replace_*)")
+def store11(ctx) -> List[Ob]:
+    out: List[Ob] = []
+    prog = ctx.prog
+    for c in block_classes(prog):
+        for mname, fld in (("replace_jump_targets", "_jump_targets"), ("replace_backedges", "backedges")):
+            m = c.methods.get(mname)
+            if m is None:
+                continue
+            params = [p.arg for p in m.params if p.arg != "self"]
+            key = f"{c.name}.{mname}"
+            where = ctx.where(m)
+            rets = [r for r in A.walk_no_nested(m.node) if isinstance(r, ast.Return) and r.value is not None]
+            good = bool(rets) and bool(params)
+            why = ""
+            for r in rets:
+                v = r.value
+                if not (isinstance(v, ast.Call) and (A.dotted(v.func) or "").split(".")[-1] == "replace"):
+                    good, why = False, f"returns {A.unparse(v)[:40]}, not replace(self, ...)"
+                    continue
+                kws = {k.arg: k.value for k in v.keywords}
+                if fld not in kws:
+                    good, why = False, f"replace(...) does not set {fld}"
+                elif not (isinstance(kws[fld], ast.Name) and kws[fld].id == params[0]):
+                    good, why = False, f"{fld} is set to {A.unparse(kws[fld])[:50]}, not to the tuple it was given"
+                else:
+                    # the parameter must not be re-bound before
+                    cfg = ctx.cfg(m)
+                    defs = cfg.reaching_defs(r, params[0])
+                    if any(d.stmt is not None for d in defs):
+                        good, why = False, f"the parameter {params[0]} is re-bound before it is stored"
+            if good:
+                out.append(ok("STORE-11", m.qualname, key, where, f"{fld} = {params[0]} unchanged"))
+            else:
+                out.append(bad("STORE-11", m.qualname, key, where, f"{c.name}.{mname}: {why}: arity / order of the successors changes behind the caller's back"))
+    # the filtered view keeps the order of the stored tuple
+    bb = prog.cls("BasicBlock")
+    jt = bb.methods.get("jump_targets")
+    if jt is None:
+        raise AnalysisError("BasicBlock.jump_targets not found")
+    from .order import order_provenance
+
+    key = "BasicBlock.jump_targets view"
+    rets = [r for r in A.walk_no_nested(jt.node) if isinstance(r, ast.Return) and r.value is not None]
+    why = []
+    for r in rets:
+        why += order_provenance(ctx, jt, r.value)
+    loops = [n for n in A.walk_no_nested(jt.node) if isinstance(n, (ast.For, ast.comprehension))]
+    src_ok = any(A.unparse(n.iter) == "self._jump_targets" for n in loops)
+    if why or not src_ok:
+        out.append(bad("STORE-11", jt.qualname, key, ctx.where(jt), f"the jump_targets view does not present the stored successors in their stored order ({(why or ['does not iterate self._jump_targets'])[0]})"))
+    else:
+        out.append(ok("STORE-11", jt.qualname, key, ctx.where(jt), "iterates self._jump_targets in order, dropping declared back edges"))
+    return out
+
+
+@rule("STORE-12", 3, "the raw successor tuple (which includes declared back edges) is read only where a block is copied for re-targeting or serialised; structure queries use the filtered view")
+def store12(ctx) -> List[Ob]:
+    out: List[Ob] = []
+    prog = ctx.prog
+    for fn in prog.functions:
+        if fn.module not in _owner_modules(ctx):
+            continue
+        for n in A.walk_no_nested(fn.node):
+            if not (isinstance(n, ast.Attribute) and n.attr == "_jump_targets" and isinstance(n.ctx, ast.Load)):
+                continue
+            par = A.parent(n)
+            key = A.alpha_key(A.enclosing_stmt(n) or n)
+            where = ctx.where(fn, n)
+            # (a) list(X._jump_targets) / element-wise comprehension feeding replace_jump_targets in this function
+            is_copy = (isinstance(par, ast.Call) and isinstance(par.func, ast.Name) and par.func.id in ("list", "tuple") and par.args and par.args[0] is n) or isinstance(par, ast.comprehension)
+            if is_copy and (method_calls(fn.node, "replace_jump_targets") or fn.qualname.startswith("SCFGIO.")):
+                out.append(ok("STORE-12", fn.qualname, key, where, "copied for positional re-targeting / serialisation"))
+            else:
+                out.append(bad("STORE-12", fn.qualname, key, where, f"{A.unparse(n)[:40]} (raw successors incl. declared back edges) is read by a structure query: loops that are already restructured are seen again, back edges count as forward arcs"))
+    return out
+
+
+PAYLOAD_FIELDS = {"tree", "variable_assignment", "branch_value_table", "_jump_targets", "backedges"}
+
+
+@rule("STORE-13", 1, "a block's payload containers are never mutated in place (blocks are shared between graph, sub-graphs and callers)")
+def store13(ctx) -> List[Ob]:
+    out: List[Ob] = []
+    prog, typer = ctx.prog, ctx.typer
+    bnames = {c.name for c in block_classes(prog)}
+    n_sites = 0
+    for fn in prog.functions:
+        env = typer.env(fn)
+        for n in A.walk_no_nested(fn.node):
+            tgt = None
+            how = None
+            if isinstance(n, (ast.Assign, ast.AugAssign, ast.Delete)):
+                tg = n.targets if isinstance(n, (ast.Assign, ast.Delete)) else [n.target]
+                for t in tg:
+                    if isinstance(t, ast.Subscript) and isinstance(t.value, ast.Attribute) and t.value.attr in PAYLOAD_FIELDS:
+                        tgt, how = t.value, "subscript store"
+            elif isinstance(n, ast.Call) and isinstance(n.func, ast.Attribute) and n.func.attr in ("append", "extend", "insert", "pop", "remove", "clear", "update", "setdefault", "sort", "reverse") and isinstance(n.func.value, ast.Attribute) and n.func.value.attr in PAYLOAD_FIELDS:
+                tgt, how = n.func.value, f".{n.func.attr}()"
+            if tgt is None:
+                continue
+            bt = typer.type_of(tgt.value, env, fn)
+            is_block = any(m[0] == "cls" and m[1] in bnames for m in members(strip_none(bt))) or (bt == ("any",) and fn.module.name.endswith("ast_transforms") and A.unparse(tgt.value) in ("block", "b"))
+            if not is_block:
+                continue
+            n_sites += 1
+            key = A.alpha_key(A.enclosing_stmt(n) or n)
+            out.append(bad("STORE-13", fn.qualname, key, ctx.where(fn, n), f"{A.unparse(tgt)[:40]} of a block is mutated in place ({how}): the graph changes as a side effect (a second code generation / walk sees different blocks)"))
+    out.append(ok("STORE-13", "<module>", "census of in-place payload mutations", "numba_scfg:1", f"{n_sites} in-place mutation(s) of block payload containers in {len(prog.functions)} functions", nontrivial=False))
     return out
